@@ -4,6 +4,7 @@ import (
 	"context"
 	"errors"
 	"net"
+	"sync"
 
 	"github.com/lightninglabs/lightning-node-connect/hashmailrpc"
 	"google.golang.org/grpc"
@@ -21,6 +22,30 @@ import (
 type grpcFace struct {
 	hashmailrpc.UnimplementedHashMailServer
 	r *fakeRelay
+
+	mu      sync.Mutex
+	writers map[string]bool // mailboxes whose (single) write / read stream is taken
+	readers map[string]bool
+}
+
+// take / release: one writer and one reader per mailbox, as aperture's RequestWriteStream / RequestReadStream
+func (g *grpcFace) take(m map[string]bool, id string) bool {
+	g.mu.Lock()
+	defer g.mu.Unlock()
+	if m[id] {
+		g.r.mu.Lock()
+		g.r.grpcOccupied++
+		g.r.mu.Unlock()
+		return false
+	}
+	m[id] = true
+	return true
+}
+
+func (g *grpcFace) release(m map[string]bool, id string) {
+	g.mu.Lock()
+	delete(m, id)
+	g.mu.Unlock()
 }
 
 func (g *grpcFace) NewCipherBox(ctx context.Context, in *hashmailrpc.CipherBoxAuth) (*hashmailrpc.CipherInitResp, error) {
@@ -37,6 +62,7 @@ func (g *grpcFace) SendStream(rs hashmailrpc.HashMail_SendStreamServer) error {
 	// the handler's context decides is decided here, as aperture does
 	fwd := &relaySend{dummyStream: dummyStream{context.Background()}, r: g.r}
 	first := true
+	taken := ""
 	for {
 		if !first {
 			select {
@@ -52,6 +78,16 @@ func (g *grpcFace) SendStream(rs hashmailrpc.HashMail_SendStreamServer) error {
 		}
 		if cb.Desc == nil || cb.Desc.StreamId == nil {
 			return errors.New("stream_id required")
+		}
+		if taken == "" {
+			if g.r.box(string(cb.Desc.StreamId), false) == nil {
+				return errors.New("stream not found")
+			}
+			if !g.take(g.writers, string(cb.Desc.StreamId)) {
+				return errors.New("write stream occupied")
+			}
+			taken = string(cb.Desc.StreamId)
+			defer g.release(g.writers, taken)
 		}
 		isFIN := len(cb.Msg) == 1 && cb.Msg[0] == 5
 		if isFIN {
@@ -76,6 +112,13 @@ func (g *grpcFace) SendStream(rs hashmailrpc.HashMail_SendStreamServer) error {
 
 func (g *grpcFace) RecvStream(desc *hashmailrpc.CipherBoxDesc, ws hashmailrpc.HashMail_RecvStreamServer) error {
 	ctx := ws.Context()
+	if g.r.box(string(desc.StreamId), false) == nil {
+		return errors.New("stream not found")
+	}
+	if !g.take(g.readers, string(desc.StreamId)) {
+		return errors.New("read stream occupied")
+	}
+	defer g.release(g.readers, string(desc.StreamId))
 	in, err := g.r.RecvStream(ctx, desc)
 	if err != nil {
 		return err
@@ -95,7 +138,7 @@ func (g *grpcFace) RecvStream(desc *hashmailrpc.CipherBoxDesc, ws hashmailrpc.Ha
 func (r *fakeRelay) serveGRPC() (hashmailrpc.HashMailClient, func(), error) {
 	lis := bufconn.Listen(1 << 20)
 	srv := grpc.NewServer()
-	hashmailrpc.RegisterHashMailServer(srv, &grpcFace{r: r})
+	hashmailrpc.RegisterHashMailServer(srv, &grpcFace{r: r, writers: map[string]bool{}, readers: map[string]bool{}})
 	go func() { _ = srv.Serve(lis) }()
 	cc, err := grpc.Dial("bufnet",
 		grpc.WithContextDialer(func(ctx context.Context, _ string) (net.Conn, error) { return lis.DialContext(ctx) }),
